@@ -11,7 +11,7 @@ from framework import P, hexf, hexl
 PID = 'C04'
 LEVEL = 'proof'
 LEAN_TARGETS = ['Swiftness.Props.C04', 'Swiftness.Prover.MerkleProver']
-BUILDS = {'quick': [('k160', 'stone5'), ('b248', 'stone5')],
+BUILDS = {'quick': [('k160', 'stone5'), ('k248', 'stone5'), ('b160', 'stone5'), ('b248', 'stone5')],   # the property names all four hash variants: all four in every tier
           'thorough': [('k160', 'stone5'), ('k248', 'stone5'), ('b160', 'stone5'), ('b248', 'stone5')]}
 RULE = ('honest instances from the Lean spec builder: heights 0..8 (quick) / 0..12 (thorough), n_verifier_friendly 0..h+2 and huge, '
         'query shapes single/adjacent/all/sparse/dense; each followed by its single-site corruptions: every queried value (+1), '
